@@ -15,7 +15,9 @@ Inductive case :=
 (* single-octet headers: byte, decoded fields as observed *)
 | CMhdr (b : N) (o_mtype o_major : N) (o_re : N)
 | CFctrl (b : N) (o : fctrl) (o_re : outcome N)
-| CDlSettings (b : N) (o_optneg : bool) (o_rx2 o_rx1 : N) (o_re : outcome N).
+| CDlSettings (b : N) (o_optneg : bool) (o_rx2 o_rx1 : N) (o_re : outcome N)
+(* FHDR.MarshalBinary of a header value (its unexported FOptsLen may be stale) *)
+| CFhdrEnc (h : fhdr) (o : outcome (list N)).
 
 Definition oeqb := outcome_eqb bytes_eqb.
 Definition peqb := outcome_eqb macpl_eqb.
@@ -50,6 +52,13 @@ Definition check (c : case) : N :=
   | CFctrl b c re =>
     code (fctrl_eqb (fctrl_unmarshal b) c && outcome_eqb N.eqb (fctrl_marshal c) re)
          (fctrl_eqb c (spec_fctrl_decode b) && outcome_eqb N.eqb re (Ok (spec_fctrl c)))
+  | CFhdrEnc h o =>
+    code (oeqb (fhdr_marshal h) o)
+         (match items_marshal (fopts h) with
+          | Ok opts => if (length opts <=? 15)%nat && id_ok' 4 (devaddr h) && (fcnt h <? 2 ^ 32)
+                       then oeqb o (Ok (spec_fhdr h opts)) else true
+          | _ => true
+          end)
   | CDlSettings b o rx2 rx1 re =>
     code (let '(o', a, c) := dec_dlsettings b in Bool.eqb o o' && (a =? rx2) && (c =? rx1) && outcome_eqb N.eqb (enc_dlsettings o rx2 rx1) re)
          (let l := unpack L_DLSettings b in
